@@ -35,6 +35,13 @@ def top_singular_sq(J):
     return Fr(int(lam.man)) * (Fr(2) ** int(lam.exp))
 
 
+def sqrt_fr(q):
+    """sqrt of a positive rational to ~55 significant digits, as a rational (the SVD kernel's value handed to the model)"""
+    mpmath.mp.dps = 60
+    r = mpmath.sqrt(mpmath.mpf(q.numerator) / mpmath.mpf(q.denominator))
+    return Fr(int(r.man)) * (Fr(2) ** int(r.exp))
+
+
 def pref_vectors(rng, m):
     out = [None]
     out.append([Fr(rng.randint(0, 16), 8) for _ in range(m)])
@@ -194,13 +201,28 @@ def main(ctx: Ctx):
             J = [[Fr(rng.choice([-1, 1]) * rng.randint(2, 9), 100000) for _ in range(nn)] for _ in range(mm)]
             J[1] = [-a * Fr(4, 5) + b * Fr(3, 10) for a, b in zip(J[0], J[1])]
             ctx.count("family", "wide-small-entries")
-            one_case(ctx, J, None, top_singular_sq(J), torch.float64, exact_model=False)
+            s2 = top_singular_sq(J)
+            one_case(ctx, J, sqrt_fr(s2), s2, torch.float64, exact_model=True)
+        elif i % 8 == 1:
+            # a tiny objective that conflicts with a large one (norm ratio 1e-3..1e-6), the large ones not conflicting with each
+            # other: its conflict is NOT rounding noise, the projection must still move the large row's weight
+            mm = rng.choice([2, 3])
+            nn = rng.choice([2, 3, 4])
+            big = [[Fr(rng.randint(1, 9)) for _ in range(nn)] for _ in range(mm)]
+            t = Fr(1, 10 ** rng.choice([3, 4, 5, 6]))
+            k = rng.randrange(mm)
+            tiny = [-t * v + t * Fr(rng.randint(-2, 2), 4) for v in big[k]]
+            J = big + [tiny]
+            rng.shuffle(J)
+            ctx.count("family", "tiny-conflicting-row")
+            s2 = top_singular_sq(J)
+            one_case(ctx, J, sqrt_fr(s2), s2, torch.float64, exact_model=True)
         elif i % 4 == 3:
             J = m_int(rng, m, n)
             if all(v == 0 for r in J for v in r):
                 continue
             s2 = top_singular_sq(J)
-            one_case(ctx, J, None, s2, dtype, exact_model=False)
+            one_case(ctx, J, sqrt_fr(s2), s2, dtype, exact_model=True)
         else:
             # s far above / below norm_eps as well: the definition is scale-free above the threshold (2^±70 is within the
             # range of both dtypes; the squared singular values are not, in single precision)
